@@ -1,9 +1,15 @@
 SPECIFICATION Spec
-CONSTANTS
-  TKinds = {"aux1", "diamond", "recdep"}
-  HKinds = {"prop", "alias", "code", "nested", "unusedalias", "opbody"}
-  H2Kinds = {"none", "code", "prop2"}
-  CKinds = {"exact", "case", "twoimports"}
-  Export = FALSE
-INVARIANTS InvNoError InvBounded InvC01 InvC01Ind InvC02 InvC03 InvC05 InvC06 InvConfluent
+CONSTANT TKinds = {"aux1"}
+CONSTANT HKinds = {"prop", "nested"}
+CONSTANT H2Kinds = {"none", "code"}
+CONSTANT CKinds = {"exact", "twoimports"}
+CONSTANT Export = FALSE
+INVARIANT InvNoError
+INVARIANT InvBounded
+INVARIANT InvC01
+INVARIANT InvC02
+INVARIANT InvC03
+INVARIANT InvC05
+INVARIANT InvC06
+INVARIANT InvConfluent
 CHECK_DEADLOCK FALSE
